@@ -33,9 +33,17 @@ package spec
 
 // validPattern(v): v is accepted by the pattern compiler (nfa.Parse); regexToDFA fails exactly on the others.
 //@ ghost func validPattern(v string) bool
+// patLang(v): the language of the automaton nfa.Parse builds for the pattern v (what the mappers assemble; the
+// mappers themselves are under contract in regex/parser/nfa, the pattern semantics is compared in C02's bounded run).
+// C02: determinising, minimising, pruning and renumbering never change the language.
+//@ ghost func patLang(v string) int
 //@ func regexToDFA(regex string) (*auto.DFA, error)
-//@   opaque
 //@   fresh-result
+//@   callsite nfa.Parse assumes @DEF (result1 != nil) == !validPattern(arg0)
+//@   callsite nfa.Parse assumes @DEF result1 == nil ==> result0 != nil && allocated(result0) && result0.lang == patLang(arg0)
+//@   callsite nfa.Parse assumes @DEF result1 != nil ==> !typeis(result1, "*errors.MultiError")
+//@   callsite nfa.Parse assumes @A-PURE fsKind == old(fsKind) && fsData == old(fsData)
+//@   ensures @language-kept result1 == nil ==> result0.lang == patLang(regex)
 //@   ensures (result1 != nil) == !validPattern(regex)
 //@   ensures result1 == nil ==> result0 != nil
 //@   ensures result1 != nil ==> result0 == nil && !typeis(result1, "*errors.MultiError")
